@@ -41,6 +41,53 @@ def shapes():
           'bool': s_bool, 'big': s_big, 'tiny': s_tiny, 'bin': s_bin, 'f32edge': s_f32edge, 'hugelog': s_hugelog, 'tinylog': s_tinylog}
 
 
+_MAG = {'unit': 1.0, 'big': 1e6, 'huge': 1e30, 'tiny': 1e-9}
+_CLASS_SHAPES = {}
+
+
+def class_shapes(seed, n):
+  """n seeded random shapes drawn from parameter CLASSES (the classes of Converter.tla: magnitude x sign x width x scale
+  for DOUBLE, offsets for INTEGER, spreads for DISCRETE, sizes for CATEGORICAL): the catalog fixes which corner cases
+  exist, the classes vary the magnitudes inside them."""
+  rng = random.Random(seed * 7919 + 11)
+  out = {}
+  for k in range(n):
+    params = []
+    for j in range(rng.randint(1, 3)):
+      kind = rng.choice(['D', 'D', 'D', 'I', 'S', 'C'])
+      if kind == 'D':
+        mag, width = rng.choice(sorted(_MAG)), rng.choice(['wide', 'wide', 'narrow'])
+        st = rng.choice(['LINEAR', 'LINEAR', 'LOG', 'REVERSE_LOG'])
+        sign = 'pos' if st != 'LINEAR' else rng.choice(['pos', 'neg', 'cross'])
+        lo = _MAG[mag] * rng.uniform(0.1, 1.0)
+        hi = lo * (rng.uniform(3.0, 100.0) if width == 'wide' else 1.0 + 3e-7 * rng.uniform(1.0, 3.0))
+        lo, hi = {'pos': (lo, hi), 'neg': (-hi, -lo), 'cross': (-lo, hi - lo)}[sign]
+        params.append(('D', 'p%d' % j, lo, hi, st))
+      elif kind == 'I':
+        lo = rng.choice([-7, 0, 1, 999990, -1000003])
+        params.append(('I', 'p%d' % j, lo, lo + rng.randint(0, 9)))
+      elif kind == 'S':
+        base = rng.choice([1e-6, 1.0, 1e6])
+        params.append(('S', 'p%d' % j, sorted({base * v for v in rng.sample([0.5, 1.0, 1.0 + 1e-7, 2.0, 3.5, 10.0, 100.0], rng.randint(1, 5))})))
+      else:
+        params.append(('C', 'p%d' % j, ['v%d' % i for i in range(rng.randint(1, 5))]))
+    out['cls%d' % k] = params
+  return out
+
+
+def _add_class_shape(r, params):
+  from vizier import pyvizier as vz
+  for p in params:
+    if p[0] == 'D':
+      r.add_float_param(p[1], p[2], p[3], scale_type=getattr(vz.ScaleType, p[4]))
+    elif p[0] == 'I':
+      r.add_int_param(p[1], p[2], p[3])
+    elif p[0] == 'S':
+      r.add_discrete_param(p[1], p[2])
+    else:
+      r.add_categorical_param(p[1], p[2])
+
+
 CONTINUOUS = {'unit', 'neg', 'log', 'big'}
 LONG_SHAPES = {'mixed', 'neg', 'unit', 'cat'}
 
@@ -48,7 +95,10 @@ LONG_SHAPES = {'mixed', 'neg', 'unit', 'cat'}
 def problem(shape, metrics=1):
   from vizier import pyvizier as vz
   p = vz.ProblemStatement()
-  shapes()[shape](p.search_space.root)
+  if shape in _CLASS_SHAPES:
+    _add_class_shape(p.search_space.root, _CLASS_SHAPES[shape])
+  else:
+    shapes()[shape](p.search_space.root)
   p.metric_information.append(vz.MetricInformation('m', goal=vz.ObjectiveMetricGoal.MAXIMIZE))
   if metrics == 2:
     p.metric_information.append(vz.MetricInformation('k', goal=vz.ObjectiveMetricGoal.MINIMIZE))
@@ -208,7 +258,10 @@ def collect(ctx, which):
   """Runs the sessions and returns (observations, meta, tlc results).  which: 'C03' | 'C13' | 'C14' decides the sampling emphasis."""
   rng = random.Random(ctx.seed + 61)
   algos = algorithms()
-  cat = shapes()
+  cat = dict(shapes())
+  _CLASS_SHAPES.clear()
+  _CLASS_SHAPES.update(class_shapes(ctx.seed, 8 if not ctx.thorough else 40) if which == 'C03' else {})
+  cat.update({k: None for k in _CLASS_SHAPES})
   obs, meta = [], []
   with tlc.Scratch('ds') as d:
     res, scheds = load_schedules(d, 5 if not ctx.thorough else 6, 0, rng)
